@@ -48,7 +48,7 @@ BadFuzz(e) ==
   \cup T(e.type # "" /\ e.outcome = "ok" /\ ~MandatoryComplete(e.type, e.in), "C03.short_accepted")
 
 Bad(e) ==
-  CASE e.ev = "RT" -> BadRT(e)
+  CASE e.ev = "RT" -> BadRT(e) \cup T(e.type = "cmpp.SubPduDeliveryContent" /\ BadRT(e) # {}, "C18.statusreport")
     [] e.ev = "Relay" -> BadRelay(e)
     [] e.ev = "Fuzz" -> BadFuzz(e)
 
